@@ -23,33 +23,43 @@ Proof. intros Hok He Hr. unfold item_ok in Hok. apply andb_true_iff in Hok as [H
 Lemma default_is_snake : default_case default_field_case = RSnake.
 Proof. reflexivity. Qed.
 
-Lemma name_field it ra : item_ok it = true ->
-  compute_field_name default_field_case (unraw (it_ident it)) (rename_of it) ra = wire_name KStruct ra it.
-Proof. intros Hok. unfold item_ok in Hok. apply andb_true_iff in Hok as [Hok _]. apply andb_true_iff in Hok as [Hid _].
-  unfold compute_field_name, wire_name. destruct (rename_of it) as [v|]; [reflexivity|].
-  destruct ra as [r|]; [apply apply_field_ok; exact Hid|]. rewrite default_is_snake. reflexivity. Qed.
+Lemma name_field dfc it ra : item_ok it = true ->
+  match ra with None => has_skip it = false -> cfg_differs dfc it = false | Some _ => True end ->
+  has_skip it = false ->
+  compute_field_name dfc (unraw (it_ident it)) (rename_of it) ra = wire_name KStruct ra it.
+Proof. intros Hok Hcfg Hs. unfold item_ok in Hok. apply andb_true_iff in Hok as [Hok _]. apply andb_true_iff in Hok as [Hid _].
+  unfold compute_field_name, wire_name. destruct (rename_of it) as [v|] eqn:Er; [reflexivity|].
+  destruct ra as [r|]; [apply apply_field_ok; exact Hid|].
+  specialize (Hcfg Hs). unfold cfg_differs in Hcfg. rewrite Hs, Er in Hcfg. cbn [negb andb] in Hcfg.
+  apply negb_false_iff in Hcfg. apply str_eqb_eq in Hcfg. exact Hcfg. Qed.
 
 Lemma name_variant it ra : compute_variant_name (unraw (it_ident it)) (rename_of it) ra = wire_name KEnum ra it.
 Proof. unfold compute_variant_name, wire_name. destruct (rename_of it) as [v|]; [reflexivity|].
   destruct ra as [r|]; [|reflexivity]. cbn [is_struct]. rewrite <- apply_variant_ok. destruct r; reflexivity. Qed.
 
-Lemma name_item k it ra : item_ok it = true ->
-  (if is_struct k then compute_field_name default_field_case (unraw (it_ident it)) (rename_of it) ra
+Lemma name_item dfc k it ra : item_ok it = true ->
+  (is_struct k = true -> match ra with None => has_skip it = false -> cfg_differs dfc it = false | Some _ => True end) ->
+  has_skip it = false ->
+  (if is_struct k then compute_field_name dfc (unraw (it_ident it)) (rename_of it) ra
    else compute_variant_name (unraw (it_ident it)) (rename_of it) ra) = wire_name k ra it.
-Proof. intros Hok. destruct k; cbn [is_struct]; [apply name_field; exact Hok|apply name_variant]. Qed.
+Proof. intros Hok Hcfg Hs. destruct k; cbn [is_struct] in *; [apply name_field; [exact Hok|apply Hcfg; reflexivity|exact Hs]|apply name_variant]. Qed.
 
-Lemma emit_ok k ra items :
+Lemma emit_ok dfc k ra items :
   forallb item_ok items = true ->
   existsb it_skip_text items = false -> existsb it_skip_beside items = false ->
   existsb it_escape items = false -> existsb it_rename_text items = false ->
-  emit_raw k default_field_case ra (map item_raw items)
+  (is_struct k = true -> ra = None -> existsb (cfg_differs dfc) items = false) ->
+  emit_raw k dfc ra (map item_raw items)
   = map (wire_name k ra) (filter (fun it => negb (has_skip it)) items).
-Proof. induction items as [|it items IH]; intros Hok H2 H3 H4 H5; [reflexivity|].
+Proof. induction items as [|it items IH]; intros Hok H2 H3 H4 H5 H7; [reflexivity|].
   cbn [forallb] in Hok. apply andb_true_iff in Hok as [Hit Hok].
   cbn [existsb] in H2, H3, H4, H5.
   apply orb_false_iff in H2 as [A2 H2]. apply orb_false_iff in H3 as [A3 H3].
   apply orb_false_iff in H4 as [A4 H4]. apply orb_false_iff in H5 as [A5 H5].
-  specialize (IH Hok H2 H3 H4 H5).
+  assert (is_struct k = true -> ra = None -> cfg_differs dfc it = false /\ existsb (cfg_differs dfc) items = false) as H7'.
+  { intros Hk Hr. specialize (H7 Hk Hr). cbn [existsb] in H7. apply orb_false_iff in H7. exact H7. }
+  assert (is_struct k = true -> ra = None -> existsb (cfg_differs dfc) items = false) as H7t by (intros Hk Hr; apply (H7' Hk Hr)).
+  specialize (IH Hok H2 H3 H4 H5 H7t).
   cbn [map emit_raw item_raw filter].
   pose proof (item_rename_ok it Hit A4 A5) as Hrn.
   destruct (field_attrs (map group_string (it_attrs it))) as [rn sk] eqn:E. cbn [fst] in Hrn. subst rn.
@@ -59,15 +69,44 @@ Proof. induction items as [|it items IH]; intros Hok H2 H3 H4 H5; [reflexivity|]
     cbn [negb]. exact IH.
   - unfold it_skip_text in A2. rewrite Hs in A2. cbn [negb andb] in A2.
     pose proof (item_skip_false it Hs A2) as Hsk. rewrite E in Hsk. cbn [snd] in Hsk. subst sk.
-    cbn [negb map]. rewrite (name_item k it ra Hit), IH. reflexivity. Qed.
+    cbn [negb map]. rewrite (name_item dfc k it ra Hit); [rewrite IH; reflexivity| |exact Hs].
+    intros Hk. destruct ra as [r|]; [exact I|]. intros _. apply (H7' Hk eq_refl). Qed.
 
-Theorem names_correct c : in_domain c = true -> kf_C06 c = false ->
-  emitted_keys default_field_case c = serde_wire_names c.
-Proof. intros Hd Hk. unfold emitted_keys, emitted_keys_raw, serde_wire_names. rewrite (struct_attrs_container c Hd).
+(* every configured default_field_case *)
+Theorem names_correct_cfg dfc c : in_domain c = true -> kf_C06 c = false -> kf_config_case dfc c = false ->
+  emitted_keys dfc c = serde_wire_names c.
+Proof. intros Hd Hk Hcfg. unfold emitted_keys, emitted_keys_raw, serde_wire_names. rewrite (struct_attrs_container c Hd).
   unfold kf_C06 in Hk. repeat (apply orb_false_iff in Hk as [Hk ?]).
   unfold in_domain in Hd. apply andb_true_iff in Hd as [Hd _]. apply andb_true_iff in Hd as [Hd _]. apply andb_true_iff in Hd as [Hitems _].
   unfold kf_skip_text, kf_skip_beside, kf_rename_escape, kf_rename_text in *.
-  apply emit_ok; assumption. Qed.
+  apply emit_ok; try assumption.
+  intros Hs Hr. unfold kf_config_case in Hcfg. rewrite Hs, Hr in Hcfg. exact Hcfg. Qed.
+
+(* the class is empty under the default configuration *)
+Lemma config_default_empty c : kf_config_case default_field_case c = false.
+Proof. unfold kf_config_case. destruct (is_struct (c_kind c)); [|reflexivity]. destruct (container_rule c); [reflexivity|].
+  cbn [andb]. induction (c_items c) as [|it l IH]; [reflexivity|]. cbn [existsb]. rewrite IH, orb_false_r.
+  unfold cfg_differs. destruct (has_skip it); [reflexivity|]. destruct (rename_of it); [reflexivity|].
+  rewrite default_is_snake. cbn [apply_naming_convention negb andb]. rewrite str_eqb_refl. reflexivity. Qed.
+
+Theorem names_correct c : in_domain c = true -> kf_C06 c = false ->
+  emitted_keys default_field_case c = serde_wire_names c.
+Proof. intros Hd Hk. apply names_correct_cfg; [exact Hd|exact Hk|apply config_default_empty]. Qed.
+
+(* reflection of the run-time oracle *)
+Lemma strs_eqb_eq a b : strs_eqb a b = true <-> a = b.
+Proof. revert b. induction a as [|x a IH]; intros [|y b]; cbn [strs_eqb]; split; intros H; try reflexivity; try discriminate.
+  - apply andb_true_iff in H as [H1 H2]. apply str_eqb_eq in H1. apply IH in H2. subst. reflexivity.
+  - injection H as -> ->. rewrite str_eqb_refl. apply IH. reflexivity. Qed.
+Theorem oracle_exact c observed : c06_ok c observed = true <-> observed = serde_wire_names c.
+Proof. unfold c06_ok. apply strs_eqb_eq. Qed.
+
+(* C06-7 witness: default_field_case = camelCase, unattributed struct *)
+Definition w7 : container := {| c_kind := KStruct; c_attrs := []; c_items := [{| it_ident := L "user_id"; it_attrs := [] |}; {| it_ident := L "a"; it_attrs := [] |}] |}.
+Lemma config_case_refuted : in_domain w7 = true /\ kf_C06 w7 = false /\ kf_config_case (L "camelCase") w7 = true /\
+  emitted_keys (L "camelCase") w7 = [L "userId"; L "a"] /\ serde_wire_names w7 = [L "user_id"; L "a"] /\
+  c06_ok w7 [L "userId"; L "a"] = false.
+Proof. vm_compute. repeat split. Qed.
 
 (* ------------------------------------------------------------------ other attributes are inert *)
 Lemma first_rename_core l : first_rename (filter (fun m => negb (is_other m)) l) = first_rename l.
